@@ -77,7 +77,7 @@ def plan_expr(g: L.G, cname: str, depth: int = 0) -> dict:
     def number() -> dict:
         if g.p(0.6):
             return {'vt': 'donor', 'v': {'k': 'NUMBER', 't': g.pick(NUMBER_POOL)}}
-        return {'vt': 'donor', 'v': {'k': 'NUMBER', 't': _dec_text(abs(D.decimal_value(g)))}}
+        return {'vt': 'donor', 'v': {'k': 'NUMBER', 't': _dec_text(D.decimal_value(g).copy_abs())}}
 
     def atom(d: int) -> dict:
         x = g.n(0, 9)
@@ -123,7 +123,7 @@ def arg_for(g: L.G, cname: str, how: str, name: str, depth: int, indent: Optiona
     if name in ('number', 'number_per', 'number_total'):
         return {'vt': 'dec', 'v': str(D.decimal_value(g))} if val else tok('number_expr')
     if name == 'tolerance':
-        return {'vt': 'dec', 'v': str(abs(D.decimal_value(g)))} if val else tok('tolerance')
+        return {'vt': 'dec', 'v': str(D.decimal_value(g).copy_abs())} if val else tok('tolerance')
     if name == 'currencies':
         return [({'vt': 'str', 'v': g.currency_text()} if val else tok('CURRENCY')) for _ in range(g.pick([0, 1, 2, 3]))]
     if name in ('booking', 'type', 'description', 'filename', 'comment', 'name', 'query_string', 'config', 'label', 'payee', 'narration'):
@@ -232,7 +232,7 @@ def arg_for(g: L.G, cname: str, how: str, name: str, depth: int, indent: Optiona
 
 
 def _dec_text(d: decimal.Decimal) -> str:
-    s = format(abs(d), 'f')
+    s = format(d.copy_abs(), "f")
     return ('-' + s) if d < 0 else s
 
 
